@@ -160,14 +160,8 @@ func runC05(c *core.Ctx, o Options) {
 	}
 	c.Check(nNum == 1, "K2", "", "exactly one numbering site", send.Pos(), "one", fmt.Sprintf("%d numbering sites", nNum))
 	// ---- K3 no spawn on the chain
-	chain := []*ssa.Function{send, s.m.Method("sendWithErrorCheck"), s.m.Method("Send"), c.Func("", "DefaultHandler.Send"), c.Func("", "DefaultHandler.send"), c.Func("", "DefaultHandler.sendRaw"), c.Func("", "DefaultHandler.SendBatch")}
-	for _, fn := range chain {
-		if fn == nil {
-			c.Anchor("send chain", false, "a function of the send chain is missing", token.NoPos)
-			continue
-		}
-		c.Check(!hasGo(fn), "K3", fn.Name(), "no goroutine is spawned on the send chain", fn.Pos(), "no go statement", "a go statement on the path between numbering and enqueue lets a later number overtake an earlier one")
-	}
+	checkSendChainNoSpawn(c, s, "K3")
+	send = s.m.Method("send")
 	// chain links are direct calls
 	hs, hsend, hraw := c.Func("", "DefaultHandler.Send"), c.Func("", "DefaultHandler.send"), c.Func("", "DefaultHandler.sendRaw")
 	if hs != nil && hsend != nil && hraw != nil {
@@ -375,4 +369,16 @@ func callsDirect(from, to *ssa.Function) bool {
 func firstPaths(fn *ssa.Function) []*an.Path {
 	ps, _ := an.EnumPaths(fn, 4096)
 	return ps
+}
+
+// checkSendChainNoSpawn: no go statement in any function between a session send and the outbound queue.
+func checkSendChainNoSpawn(c *core.Ctx, s *sess, rule string) {
+	chain := []*ssa.Function{s.m.Method("send"), s.m.Method("sendWithErrorCheck"), s.m.Method("Send"), c.Func("", "DefaultHandler.Send"), c.Func("", "DefaultHandler.send"), c.Func("", "DefaultHandler.sendRaw"), c.Func("", "DefaultHandler.SendBatch"), c.Func("", "DefaultHandler.SendRaw")}
+	for _, fn := range chain {
+		if fn == nil {
+			c.Anchor("send chain", false, "a function of the send chain is missing", token.NoPos)
+			continue
+		}
+		c.Check(!hasGo(fn), rule, fn.Name(), "no goroutine is spawned on the send chain", fn.Pos(), "no go statement", "a go statement on the path between the sender and the outbound queue lets a later message overtake an earlier one")
+	}
 }
